@@ -313,6 +313,15 @@ func Run(r *fw.Run) {
 			}
 		}
 	})
+	// handles: everything Create opened has been closed again, and it never held more than a few files
+	// open per call (16 workers run at the same time)
+	r.Extra["file_handles_open_at_end_and_peak"] = []int64{memfile.Open.Load(), memfile.Peak.Load()}
+	if n := memfile.Open.Load(); n != 0 {
+		r.Violation("resource:handles-left-open", fmt.Sprintf("%d file handles obtained through File.Open were never closed", n), nil)
+	}
+	if p := memfile.Peak.Load(); p > 16*4 {
+		r.Violation("resource:handles-peak", fmt.Sprintf("up to %d file handles were open at once with 16 workers: Create keeps files open", p), nil)
+	}
 	r.Sample(caseT{Paths: q([]string{"go.mod", "sub/x.go", "vendor/p/x.go"}), Modes: []int{0, 0, 0}, GoMod: strconv.QuoteToASCII(zipx.GoMods[2]), ModPath: "example.com/m/v2", Version: "v2.0.0", Size: "honest"})
 	_ = strings.Join
 }
